@@ -96,6 +96,13 @@ class Interp:
         if isinstance(node, ast.Dict) and all(k is not None for k in node.keys):
             return {self.ev(k): self.ev(v) for k, v in zip(node.keys, node.values)}
         if isinstance(node, ast.Name):
+            # a module-level constant of the module the expression stands in (its own or imported from a sibling module)
+            mod = getattr(node, "_module", None)
+            prog = getattr(mod, "_prog", None)
+            if prog is not None:
+                genv = prog.module_env(mod.rel)
+                if node.id in genv:
+                    return genv[node.id]
             raise AnalysisError(f"guard language: free name {node.id!r} has no declared domain ({text})")
         if isinstance(node, ast.Attribute):
             base = self.ev(node.value) if not isinstance(node.value, ast.Name) or U(node.value) in self.env else None
@@ -338,6 +345,19 @@ class Interp:
                     return getattr(base, node.func.attr)(*args)
                 except (IndexError, ValueError) as exc:
                     raise Flow("raise", f"{type(exc).__name__}({str(exc)!r})", node) from None
+        if isinstance(node.func, ast.Attribute) and node.func.attr in ("get", "pop", "keys", "values", "items", "setdefault", "update", "copy"):
+            try:
+                base = self.ev(node.func.value)
+            except AnalysisError:
+                base = None
+            if isinstance(base, dict) and not _is_object(base):
+                args = [self.ev(a) for a in node.args]
+                if not any(isinstance(a, Unknown) for a in args):
+                    try:
+                        res = getattr(base, node.func.attr)(*args)
+                    except KeyError as exc:
+                        raise Flow("raise", f"KeyError({str(exc)})", node) from None
+                    return list(res) if node.func.attr in ("keys", "values", "items") else res
         if self.call_hook is not None:
             try:
                 return self.call_hook(self, node)
